@@ -13,8 +13,49 @@
 From Coq Require Import ZArith List Bool Lia.
 From Hts Require Import Base.Prim Generated Model.Index Model.Tabix Model.Csi Model.IndexSpec Model.TabixSpec
   Model.IndexIO Proofs.Index Proofs.TabixIdx Proofs.CsiIdx Proofs.TabixLift Proofs.CsiLift
-  Proofs.IndexPremises Proofs.CsiPremise Proofs.IndexIOFull Proofs.IndexFinal Proofs.TabixIO.
+  Proofs.IndexSort Proofs.IndexPremises Proofs.CsiPremise Proofs.IndexIOFull Proofs.IndexFinal Proofs.TabixIO
+  Proofs.CsiIO Proofs.IndexFinal2.
 Open Scope Z_scope.
+
+(** "Adding records in sorted order never fails or panics."  The hypotheses
+    are exactly [ix_wf]: coordinate sorted per reference id, every position in
+    the indexable range (start <= 2^29 - 2; the exclusive end may be 2^29 - 1),
+    monotone chunk layout; placed-unmapped records are ordinary records of
+    length one, unplaced records (Pos = -1, End = 0) may appear anywhere.  No
+    hypothesis about the bin number passed to Add. *)
+Theorem bai_add_never_fails :
+  forall rs, ix_wf rs -> exists ix, ix_fold_add ix_empty rs = Ok ix.
+Proof. exact bai_add_total. Qed.
+Print Assumptions bai_add_never_fails.
+
+(** The same for CSI with any geometry, aux and version (limit 2^(minShift+3*depth) - 2). *)
+Theorem csi_add_never_fails :
+  forall ms dp aux ver rs, ix_wf_from (cs_limit ms dp) (-1) 0 0 rs ->
+    exists ix, cs_fold_add (mkCsi aux ver [] None ms dp false 0) rs = Ok ix.
+Proof. exact csi_add_total. Qed.
+Print Assumptions csi_add_never_fails.
+
+(** The hypotheses are satisfiable at the boundary: a mapped record ending on
+    the last indexable base (2^29 - 2, exclusive end 2^29 - 1), a
+    placed-unmapped record ON the last indexable position, an unplaced record
+    in between and one at the end; Add accepts them all (the model computes
+    the result; the unrepaired range test refused the first two). *)
+Example bai_add_at_the_limit :
+  let rs := [mkRec 0 536870000 536870911 4680 100 200 true true;
+             mkRec (-1) (-1) 0 4680 200 250 false false;
+             mkRec 0 536870910 536870911 37448 250 300 true false;
+             mkRec (-1) (-1) 0 4680 300 400 false false] in
+  ix_wf rs /\
+  match ix_fold_add ix_empty rs with
+  | Ok ix => ix_numrefs ix = 1 /\ iunm ix = Some 2 /\ zlen (rintv (nth 0 (irefs ix) ix_empty_ref)) = 32768
+  | _ => False
+  end.
+Proof.
+  split.
+  - unfold ix_wf, ix_bai_limit. change (2 ^ internal_indexWordBits - 2) with 536870910.
+    simpl. repeat split; try lia; intros; lia.
+  - vm_compute. repeat split; reflexivity.
+Qed.
 
 (** BAI: for every coordinate-sorted, in-range record list with a monotone
     chunk layout (unplaced records anywhere), adding all records to the empty
@@ -119,9 +160,8 @@ Qed.
 Print Assumptions csi_complete.
 
 (** CSI in every state reachable by sort, earlier queries and covering
-    MergeChunks ([creach]).  PARTIAL only in that the state after
-    WriteTo/ReadFrom is not proved for CSI. *)
-Theorem csi_complete_merged_partial :
+    MergeChunks ([creach]). *)
+Theorem csi_complete_merged :
   forall ms dp, 0 <= ms -> 0 <= dp <= 10 -> ms + 3 * dp <= 62 ->
   forall aux ver rs ix, ix_wf_from (cs_limit ms dp) (-1) 0 0 rs -> creach ms dp aux ver rs ix ->
   forall rid beg end_ r, 0 <= beg < end_ -> end_ <= cs_limit ms dp + 2 ->
@@ -130,7 +170,42 @@ Theorem csi_complete_merged_partial :
 Proof.
   exact (fun ms dp H1 H2 H3 => csi_complete_reach_gen ms dp (csi_bin_containment_holds ms dp H1 H2 H3)).
 Qed.
-Print Assumptions csi_complete_merged_partial.
+Print Assumptions csi_complete_merged.
+
+(** CSI after WriteTo and ReadFrom (byte level, versions 1 and 2, any aux
+    bytes; [csi_ranges]: version 1 or 2, a geometry the reader accepts —
+    depth <= 9 —, numbers fit their fields): the bytes are read back as
+    [cs_reread ix] (the sorted index; version 1 does not store the per-bin
+    record counts, they come back as 0), which covers every overlapping record. *)
+Theorem csi_complete_after_write_read :
+  forall ms dp, 0 <= ms -> 0 <= dp <= 10 -> ms + 3 * dp <= 62 ->
+  forall aux ver rs ix, ix_wf_from (cs_limit ms dp) (-1) 0 0 rs ->
+    cs_fold_add (mkCsi aux ver [] None ms dp false 0) rs = Ok ix -> csi_ranges ix ->
+    csi_read (fst (csi_write ix)) = Ok (Some (cs_reread ix)) /\
+    forall rid beg end_ r, 0 <= beg < end_ -> end_ <= cs_limit ms dp + 2 ->
+      In r rs -> ix_overlaps r rid beg end_ ->
+      ix_covers (fst (cs_chunks (cs_reread ix) rid beg end_)) r.
+Proof. exact csi_complete_after_io. Qed.
+Print Assumptions csi_complete_after_write_read.
+
+(** [Index.sort] also sorts the linear-index tile offsets, which moves the
+    zero (empty) tiles to the front and shifts the offsets to later tiles: the
+    tiles no longer mean what the format says, but pruning only gets weaker.
+    For every tile list: the length is kept; if the first n tiles are at most v
+    they still are after sorting (this is what completeness needs); and when no
+    tile is negative the result is literally "all zero tiles, then the non-zero
+    ones in ascending order". *)
+Theorem sort_moves_zero_tiles_to_front_harmlessly :
+  forall l : list Z,
+    length (ix_sort_intv l) = length l /\
+    (forall v n, (n <= length l)%nat -> prefix_le v n l -> prefix_le v n (ix_sort_intv l)) /\
+    (forallb (fun x => 0 <=? x) l = true ->
+     ix_sort_intv l = filter (fun x => x =? 0) l ++ ix_isort (fun x => x) (filter (fun x => negb (x =? 0)) l)).
+Proof. exact sort_tiles_facts. Qed.
+Print Assumptions sort_moves_zero_tiles_to_front_harmlessly.
+
+Example sort_tiles_example : ix_sort_intv [100; 0; 0; 300; 0; 400] = [0; 0; 0; 100; 300; 400].
+Proof. reflexivity. Qed.
 
 (** Non-vacuity for CSI (default geometry): the record that the unrepaired
     reg2bin filed under an unreachable bin. *)
